@@ -9,6 +9,87 @@ type P = Point<f64>;
 pub const HEADER: &str =
     "From Coq Require Import QArith.\nFrom LV Require Import Base.Prelude Model.Bezier Model.LineInter Run.C12.\nOpen Scope Q_scope.";
 
+pub const HEADER_QL: &str =
+    "From Coq Require Import QArith.\nFrom LV Require Import Base.Prelude Model.Bezier Model.LineInter Model.QuadLine Run.C12.\nOpen Scope Q_scope.";
+
+/// cases for the model of QuadraticBezierSegment::line_intersections_t (Model/QuadLine.v): lattice quadratics against
+/// axis-parallel lines whose direction vector has a power-of-two length, so that the line equation and the polynomial
+/// coefficients are exact in f64 and only the square root and the final divisions round.  Half of the curves have their
+/// control point half-way between the end points across the line: the quadratic term vanishes exactly.  Sent to Coq:
+/// the curve, the equation as the code computed it, the code's square root of the discriminant, what the code returned.
+fn quad_line_cases(args: &Args, st: &mut Stats) -> std::io::Result<()> {
+    let mut w = ShardWriter::new(&args.out, "c12ql_cases", args.shards, HEADER_QL, "ql_bad_cases");
+    w.disabled = args.direct_only();
+    let mut rng = Rng::new(args.seed ^ 0x12c1);
+    let n = if args.thorough() { 24000 } else { 3000 };
+    let mut id = 0usize;
+    for _ in 0..n {
+        let r = &mut rng;
+        let horizontal = r.chance(1, 2);
+        let len = *r.pick(&[1.0f64, 2.0, 4.0, 0.5]) * if r.chance(1, 2) { 1.0 } else { -1.0 };
+        let k2 = r.range(-20, 21) as f64 * 0.5;
+        let line = if horizontal { Line { point: point(r.range(-9, 10) as f64, k2), vector: lyon_geom::vector(len, 0.0) } } else { Line { point: point(k2, r.range(-9, 10) as f64), vector: lyon_geom::vector(0.0, len) } };
+        let g = |r: &mut Rng| point(r.range(-8, 9) as f64, r.range(-8, 9) as f64);
+        let (from, to) = (g(r), g(r));
+        let mut ctrl = g(r);
+        if r.chance(1, 2) {
+            // the coordinate across the line is the mean of the end points' (a half-integer at worst)
+            if horizontal {
+                ctrl.y = (from.y + to.y) * 0.5;
+            } else {
+                ctrl.x = (from.x + to.x) * 0.5;
+            }
+        }
+        let q = QuadraticBezierSegment { from, ctrl, to };
+        let eq = line.equation();
+        let (ea, eb, ec) = (eq.a(), eq.b(), eq.c());
+        // the polynomial as the code computes it (exact on this domain)
+        let (i, j, k) = (ea * from.x + eb * from.y, ea * ctrl.x + eb * ctrl.y, ea * to.x + eb * to.y);
+        let (a, b, c) = (i - j - j + k, j + j - i - i, i + ec);
+        let delta = b * b - 4.0 * a * c;
+        let sd = if delta >= 0.0 { delta.sqrt() } else { 0.0 };
+        let out = match catch(|| q.line_intersections_t(&line).to_vec()) {
+            Some(v) => v,
+            None => {
+                st.fail(jobj(&[("what", jstr("line x quadratic query panicked")), ("input", jstr(&format!("{:?} {:?}", q, line)))]));
+                continue;
+            }
+        };
+        st.inc("evaluations");
+        st.inc("quad_line_model_cases");
+        if a == 0.0 {
+            st.inc("quad_line_model_cases_linear");
+        }
+        // the model is exact, the code rounds its square root and quotients: leave out the inputs where a rounding
+        // decides a comparison (a root within 1e-9 of 0 or 1 without being equal to it, a double root reported twice
+        // a unit in the last place apart)
+        // (in the quadratic branch the second root is c / (a t1): an end point exactly on the line comes out as
+        // 1 + 2^-52 and is dropped - a rounding at the boundary, not modelled)
+        let near = |t: f64| (t.abs() < 1e-9 && (t != 0.0 || a != 0.0)) || ((t - 1.0).abs() < 1e-9 && (t != 1.0 || a != 0.0));
+        let exact_roots: Vec<f64> = if a != 0.0 && delta >= 0.0 { vec![(-b - sd) / (2.0 * a), (-b + sd) / (2.0 * a)] } else if a == 0.0 && b != 0.0 { vec![-c / b] } else { vec![] };
+        if exact_roots.iter().any(|t| near(*t)) || (delta == 0.0 && out.len() == 2) || (delta > 0.0 && delta < 1e-9) {
+            st.inc("quad_line_model_cases_skipped_rounding");
+            continue;
+        }
+        st.note_case(&format!("{:?} {:?}", q, line), true);
+        let gp = |p: lyon_geom::Point<f64>| format!("({}, {})", gq64(p.x), gq64(p.y));
+        w.push(format!(
+            "(mkQL {} (mkQuad {} {} {}) {} {} {} {} {})",
+            id,
+            gp(from),
+            gp(ctrl),
+            gp(to),
+            gq64(ea),
+            gq64(eb),
+            gq64(ec),
+            gq64(sd),
+            glist(out.iter().map(|t| gq64(*t)))
+        ));
+        id += 1;
+    }
+    w.finish().map(|_| ())
+}
+
 fn orient(a: (i64, i64), b: (i64, i64), c: (i64, i64)) -> i64 {
     ((b.0 - a.0) * (c.1 - a.1) - (b.1 - a.1) * (c.0 - a.0)).signum()
 }
@@ -540,6 +621,92 @@ fn root_checks(args: &Args, st: &mut Stats) {
 /// the rest of the segment / line query family on integer lattices, against exact integer oracles:
 /// axis-aligned line intersections, intersects_line, overlaps_line, overlaps_segment, contains_segment,
 /// Line::intersects_box
+/// line x quadratic where the quadratic term of the projected polynomial vanishes EXACTLY: the control point is the
+/// mid-point of the end points moved along the line's direction, so along the line's normal the curve is linear in t and
+/// crosses the line at one known parameter.  Soundness (every reported parameter is on the line) and completeness (the
+/// crossing is reported when its parameter is in [0, 1]), through line_intersections_t, line_intersections,
+/// line_segment_intersections_t and the cubic raised from the quadratic.
+fn linear_projection_checks(args: &Args, st: &mut Stats) {
+    let mut rng = Rng::new(args.seed ^ 0x12a0);
+    let n = if args.thorough() { 40000 } else { 6000 };
+    for _ in 0..n {
+        let r = &mut rng;
+        // line through p with integer direction d; normal nrm
+        let d = (r.range(-4, 5) as f64, r.range(-4, 5) as f64);
+        if d == (0.0, 0.0) {
+            continue;
+        }
+        let nrm = (-d.1, d.0);
+        // end points at signed distances h0 != h1 (in units of |nrm|^2) from the line, control point in the middle
+        let p = (r.range(-6, 7) as f64, r.range(-6, 7) as f64);
+        let (h0, h1) = (r.range(-6, 7) as f64, r.range(-6, 7) as f64);
+        if h0 == h1 {
+            continue;
+        }
+        let (s0, s1, sm) = (r.range(-5, 6) as f64, r.range(-5, 6) as f64, r.range(-8, 9) as f64 * 0.5);
+        let from = point(p.0 + s0 * d.0 + h0 * nrm.0, p.1 + s0 * d.1 + h0 * nrm.1);
+        let to = point(p.0 + s1 * d.0 + h1 * nrm.0, p.1 + s1 * d.1 + h1 * nrm.1);
+        let hm = (h0 + h1) * 0.5;
+        let ctrl = point(p.0 + sm * d.0 + hm * nrm.0, p.1 + sm * d.1 + hm * nrm.1);
+        let q = QuadraticBezierSegment { from, ctrl, to };
+        let line = Line { point: point(p.0, p.1), vector: lyon_geom::vector(d.0, d.1) };
+        // h(t) = h0 + t (h1 - h0): crossing at t* = h0 / (h0 - h1)
+        let tstar = h0 / (h0 - h1);
+        let label = format!("{:?} x {:?} (crossing at t = {})", q, line, tstar);
+        st.inc("evaluations");
+        st.inc("quadratic_linear_projection");
+        st.note_case(&label, true);
+        let scale = 1.0 + from.to_vector().length() + ctrl.to_vector().length() + to.to_vector().length();
+        let dist = |pt: lyon_geom::Point<f64>| ((pt.x - p.0) * nrm.0 + (pt.y - p.1) * nrm.1).abs() / (nrm.0 * nrm.0 + nrm.1 * nrm.1).sqrt();
+        let inside = tstar > 1e-9 && tstar < 1.0 - 1e-9;
+        match catch(|| (q.line_intersections_t(&line).to_vec(), q.line_intersections(&line).to_vec(), q.to_cubic().line_intersections_t(&line).to_vec())) {
+            None => st.fail(jobj(&[("what", jstr("line x quadratic query panicked")), ("input", jstr(&label))])),
+            Some((ts, ps, tc)) => {
+                for t in ts.iter() {
+                    if !(0.0..=1.0).contains(t) || dist(q.sample(*t)) > 1e-9 * scale {
+                        st.fail(jobj(&[("what", jstr("line x quadratic (linear projection): a reported parameter is not on the line")), ("input", jstr(&format!("{} -> t = {} at distance {}", label, t, dist(q.sample(*t)))))]));
+                    }
+                }
+                for pt in ps.iter() {
+                    if dist(*pt) > 1e-9 * scale {
+                        st.fail(jobj(&[("what", jstr("line x quadratic (linear projection): a reported point is not on the line")), ("input", jstr(&format!("{} -> {:?}", label, pt)))]));
+                    }
+                }
+                if inside && !ts.iter().any(|t| (t - tstar).abs() < 1e-9) {
+                    st.fail(jobj(&[("what", jstr("line x quadratic (linear projection): the transversal crossing is not reported")), ("input", jstr(&format!("{} -> {:?}", label, ts)))]));
+                }
+                if inside && ps.len() != ts.len() {
+                    st.fail(jobj(&[("what", jstr("line_intersections and line_intersections_t disagree")), ("input", jstr(&label))]));
+                }
+                for t in tc.iter() {
+                    if !(0.0..=1.0).contains(t) || dist(q.sample(*t)) > 1e-6 * scale {
+                        st.fail(jobj(&[("what", jstr("line x raised cubic (linear projection): a reported parameter is not on the line")), ("input", jstr(&format!("{} -> t = {}", label, t)))]));
+                    }
+                }
+                if inside && !tc.iter().any(|t| (t - tstar).abs() < 1e-6) {
+                    st.fail(jobj(&[("what", jstr("line x raised cubic (linear projection): the transversal crossing is not reported")), ("input", jstr(&format!("{} -> {:?}", label, tc)))]));
+                }
+            }
+        }
+        // the same line as a long segment
+        let big = 64.0;
+        let seg = LineSegment { from: point(p.0 - big * d.0, p.1 - big * d.1), to: point(p.0 + big * d.0, p.1 + big * d.1) };
+        match catch(|| q.line_segment_intersections_t(&seg).to_vec()) {
+            None => st.fail(jobj(&[("what", jstr("segment x quadratic query panicked")), ("input", jstr(&label))])),
+            Some(v) => {
+                for (t, u) in v.iter() {
+                    if !(0.0..=1.0).contains(t) || !(-1e-9..=1.0 + 1e-9).contains(u) || (q.sample(*t) - seg.sample(*u)).length() > 1e-7 * scale * big {
+                        st.fail(jobj(&[("what", jstr("segment x quadratic (linear projection): parameters do not denote a common point")), ("input", jstr(&format!("{} -> t={} u={}", label, t, u)))]));
+                    }
+                }
+                if inside && !v.iter().any(|(t, _)| (t - tstar).abs() < 1e-9) {
+                    st.fail(jobj(&[("what", jstr("segment x quadratic (linear projection): the transversal crossing is not reported")), ("input", jstr(&format!("{} -> {:?}", label, v)))]));
+                }
+            }
+        }
+    }
+}
+
 fn line_family_checks(args: &Args, st: &mut Stats) {
     use lyon_geom::Box2D;
     let mut rng = Rng::new(args.seed ^ 0x1273);
@@ -773,8 +940,10 @@ pub fn main(args: &Args) -> std::io::Result<()> {
     curve_checks(args, &mut st);
     triangle_checks(args, &mut st);
     line_family_checks(args, &mut st);
+    linear_projection_checks(args, &mut st);
     root_checks(args, &mut st);
     curve_checks_f32(args, &mut st);
+    quad_line_cases(args, &mut st)?;
     w.finish()?;
     st.write(&args.out.join("c12_stats.json"))
 }
